@@ -41,6 +41,7 @@ type loginScn struct {
 	RemNames []string `json:"remnames"`
 	RemPws   []string `json:"rempws"`
 	Cut      int64    `json:"cut"` // seed of the packetisation of the server's messages
+	PktMode  string   `json:"pktmode,omitempty"` // "pkg": every package of a server message in a packet of its own, the packets a few ms apart
 }
 
 // conformance of the step model LoginFlow.tla: scripts with a model outcome, and how many differ
@@ -68,6 +69,7 @@ var peerResCaps = []int{1, 4, 9, 16, 25, 36}
 
 // the scripted server side of one login
 type loginPeer struct {
+	feedMu sync.Mutex
 	mc       *memConn
 	rng      *mrand.Rand
 	scn      *loginScn
@@ -230,6 +232,7 @@ func (p *loginPeer) onWrite(b []byte) {
 	p.allBytes = append(p.allBytes, b...)
 	p.buf = append(p.buf, b...)
 	var toSend [][]byte
+	var toSendPkgs [][][]byte
 	for len(p.buf) >= 8 {
 		hl := int(binary.BigEndian.Uint16(p.buf[2:4]))
 		if hl < 8 || hl > len(p.buf) {
@@ -243,16 +246,46 @@ func (p *loginPeer) onWrite(b []byte) {
 			p.cur = nil
 			if p.sent < len(p.msgs) {
 				var body []byte
+				var pkgs [][]byte
 				for _, e := range p.msgs[p.sent] {
-					body = append(body, p.encode(e)...)
+					enc := p.encode(e)
+					body = append(body, enc...)
+					pkgs = append(pkgs, enc)
 				}
 				p.sent++
 				toSend = append(toSend, body)
+				toSendPkgs = append(toSendPkgs, pkgs)
 			}
 		}
 	}
 	p.mu.Unlock()
-	for _, body := range toSend {
+	for mi, body := range toSend {
+		if p.scn.PktMode == "pkg" {
+			// one packet per package (longer ones continue in further packets), a pause between packets:
+			// the client asks for the next package before it has arrived
+			pkgs := toSendPkgs[mi]
+			go func() { // not inside the client's Write call: the client is reading while the packets arrive
+				// a server finishes one message before it starts the next (the client may reply early)
+				p.feedMu.Lock()
+				defer p.feedMu.Unlock()
+				for pi, enc := range pkgs {
+					for len(enc) > 0 {
+						n := len(enc)
+						if n > 504 {
+							n = 504
+						}
+						st := 0
+						if pi == len(pkgs)-1 && n == len(enc) {
+							st = 1
+						}
+						p.mc.Feed(mkPacket(4, st, 0, 0, enc[:n]))
+						enc = enc[n:]
+						time.Sleep(3 * time.Millisecond)
+					}
+				}
+			}()
+			continue
+		}
 		// random packetisation, packets of at most 512-8 body bytes
 		for len(body) > 0 {
 			n := 1 + p.rng.Intn(504)
@@ -523,6 +556,72 @@ func runLogin(tr *Tracer, rng *mrand.Rand, scn *loginScn) {
 	mc.Close()
 }
 
+// runLoginTwice: two encrypted logins on one connection (the server refuses the first after the
+// credentials were sent, the client tries again): the session key of the second login is fresh, too.
+func runLoginTwice(tr *Tracer, rng *mrand.Rand) {
+	refused := []absPkg{{"ack", "negotiate"}, {"msg", "enc4"}, {"fmt", "3ok"}, {"params", "good"}, {"done", "final"}, {"eom", "x"},
+		{"ack", "fail"}, {"done", "final"}, {"eom", "x"}}
+	valid := []absPkg{{"ack", "negotiate"}, {"msg", "enc4"}, {"fmt", "3ok"}, {"params", "good"}, {"done", "final"}, {"eom", "x"},
+		{"ack", "succeed"}, {"caps", "normal"}, {"done", "final"}, {"eom", "x"}}
+	scn := &loginScn{Flow: "enc", Script: append(append([]absPkg{}, refused...), valid...), KeyBits: []int{1024, 2048}[rng.Intn(2)], NonceLen: 32,
+		Pw: randSecret(rng, 8+rng.Intn(10)), User: "sa" + randName(rng, 4), Cut: rng.Int63()}
+	tr.Reset(map[string]interface{}{"driver": "login-twice", "keybits": scn.KeyBits})
+	mc := newMemConn()
+	info := newInfo()
+	info.Username, info.Password, info.Host, info.Port = scn.User, scn.Pw, "dbhost", "5000"
+	conn, err := tds.NewConnWithTransport(context.Background(), mc, info, true)
+	if err != nil {
+		return
+	}
+	ch, err := conn.NewChannel()
+	if err != nil {
+		return
+	}
+	peer := &loginPeer{mc: mc, rng: mrand.New(mrand.NewSource(scn.Cut)), scn: scn, msgs: splitMsgs(scn.Script)}
+	peer.nonce = make([]byte, scn.NonceLen)
+	rand.Read(peer.nonce)
+	mc.onWrite = peer.onWrite
+	outcomes := []string{}
+	for i := 0; i < 2; i++ {
+		cfg, err := tds.NewLoginConfig(info)
+		if err != nil {
+			return
+		}
+		ctx, cancel := context.WithTimeout(context.Background(), 2*time.Second)
+		func() {
+			defer func() {
+				if recover() != nil {
+					outcomes = append(outcomes, "panic")
+				}
+			}()
+			if err := ch.Login(ctx, cfg); err != nil {
+				outcomes = append(outcomes, "error")
+			} else {
+				outcomes = append(outcomes, "success")
+			}
+		}()
+		cancel()
+	}
+	peer.mu.Lock()
+	client := peer.client
+	peer.mu.Unlock()
+	key := loginKey(scn.KeyBits)
+	var keys [][]byte
+	for _, m := range client {
+		for _, c := range decodeLoginReply(m) {
+			if c.msgid != 34 {
+				continue
+			}
+			if pt, err := rsa.DecryptOAEP(sha1.New(), nil, key, c.ct, []byte{}); err == nil && len(pt) >= len(peer.nonce) {
+				keys = append(keys, pt[len(peer.nonce):])
+			}
+		}
+	}
+	same := len(keys) == 2 && bytes.Equal(keys[0], keys[1])
+	tr.Emit(Ev{"ev": "TwoLogins", "outcomes": outcomes, "keys": len(keys), "samekey": same})
+	mc.Close()
+}
+
 type loginCT struct {
 	msgid int
 	idx   int
@@ -619,6 +718,9 @@ func loginMain(args []string) error {
 		s.Pw = randSecret(rng, 1+rng.Intn(24))
 		s.User = "sa" + randName(rng, 5)
 		s.Cut = rng.Int63()
+		if rng.Intn(4) == 0 {
+			s.PktMode = "pkg"
+		}
 		for k := rng.Intn(3); k > 0; k-- {
 			s.RemNames = append(s.RemNames, "SRV"+randName(rng, 4))
 			s.RemPws = append(s.RemPws, randSecret(rng, 4+rng.Intn(12)))
@@ -683,6 +785,11 @@ func loginMain(args []string) error {
 			s.Pw = s.Pw[:30]
 		}
 		runLogin(tr, rng, &s)
+	}
+	if *nc09 > 0 && *part == 0 {
+		for i := 0; i < 4; i++ {
+			runLoginTwice(tr, rng)
+		}
 	}
 	writeSummary(*out+".summary.json", map[string]interface{}{"modelled": loginModelled, "drift": loginDrift, "drift_samples": loginDriftSamples})
 	return tr.Close()
